@@ -8,4 +8,12 @@ require (
 	github.com/opencontainers/image-spec v1.1.0
 )
 
+require (
+	github.com/go-quicktest/qt v1.101.0 // indirect
+	github.com/google/go-cmp v0.5.9 // indirect
+	github.com/kr/pretty v0.3.1 // indirect
+	github.com/kr/text v0.2.0 // indirect
+	github.com/rogpeppe/go-internal v1.12.0 // indirect
+)
+
 replace cuelabs.dev/go/oci/ociregistry => /repo/ociregistry
